@@ -47,6 +47,16 @@ CHECKS = {
         "Trusts the hand-copied table in vp/spec_tables.py; argument counts above 5 are not enumerated.",
         "DESIGN.md §6 C11",
     ),
+    "C06": (
+        "Hypothesis generation of literal spellings per ABNF kind and keyword-embedding identifiers in 10 contexts + exhaustive optional-part enumeration; independently computed kind/value oracle",
+        "Each generated well-formed literal or identifier is embedded in up to 10 expression contexts, parsed, "
+        "and the node at the hole must have the generated kind, a .val that denotes the source's value and a "
+        ".py_val equal to the value the harness computes itself from the spelling; identifiers must come back "
+        "as one field reference with the namespace split off. Duration part subsets, date-time optional parts "
+        "and keyword-affixed identifiers are enumerated exhaustively.",
+        "Trusts the harness's value functions (vp/gen_lex.py); domain limited to years 1000-9999 and quote-free geography text.",
+        "DESIGN.md §6 C06",
+    ),
 }
 
 ALL = ["C%02d" % i for i in range(1, 21)]
